@@ -39,6 +39,11 @@ TSessReq == Is("SessReq")
                /\ Step
 TOther == (Is("BurstDone")) /\ UNCHANGED <<sidOf, used>> /\ E.ok
                /\ Step
-TNext == TReset \/ TSessReq \/ TOther
+\* tight concurrent stress (8 sessions, 4 goroutines each): no request saw another session's cookie, the session
+\* cookie was never shown to the backend, no backend cookie reached a client
+TStress == Is("SessStress") /\ UNCHANGED <<sidOf, used>>
+           /\ E.ok /\ E.requests > 0 /\ E.mixed = 0 /\ E.session_cookie_shown = 0 /\ E.setcookie_leaked = 0
+               /\ Step
+TNext == TReset \/ TSessReq \/ TOther \/ TStress
 TSpec == TInit /\ [][TNext]_<<sidOf, used, l>>
 =============================================================================
